@@ -29,7 +29,7 @@ func VerifC17TextInput() {
 	pre := verifStr(ideal)
 	key := func(k vaxis.Key) { m.Update(k) }
 	exact := true
-	op := zzverif.Choose("op", 15)
+	op := zzverif.Choose("op", 16)
 	switch op {
 	case 0:
 		key(vaxis.Key{Keycode: 'x', Text: "x"})
@@ -97,6 +97,11 @@ func VerifC17TextInput() {
 		cur = 2
 	case 14: // a release event changes nothing
 		key(vaxis.Key{Keycode: 'x', Text: "x", EventType: vaxis.EventRelease})
+	case 15: // one key report whose text holds two graphemes (an input-method commit)
+		key(vaxis.Key{Keycode: 0x4e16, Text: "\u4e16\u754c"})
+		rest := append([]vaxis.Character{}, ideal[cur:]...)
+		ideal = append(append(ideal[:cur:cur], vaxis.Character{Grapheme: "\u4e16", Width: 2}, vaxis.Character{Grapheme: "\u754c", Width: 2}), rest...)
+		cur += 2
 	}
 	if exact {
 		zzverif.Assert(verifStr(m.content) == verifStr(ideal), "content-equals-ideal-editor")
